@@ -336,8 +336,8 @@ func (b *raftBackend) IncrBy(key []byte, delta int64) (int64, error) {
 		return 0, err
 	}
 	var current int64
-	if val != nil && val.Found && len(val.Value) > 0 {
-		current, err = strconv.ParseInt(string(val.Value), 10, 64)
+	if val != nil && val.Found {
+		current, err = parseRedisInt(val.Value)
 		if err != nil {
 			return 0, errNotInteger
 		}
@@ -453,7 +453,7 @@ func (b *raftBackend) buildValueAtVersion(key []byte, valueResp, ttlResp *pb.Get
 		return &redisValue{Found: false}, nil
 	}
 	return &redisValue{
-		Value:     append([]byte(nil), valueResp.GetValue()...),
+		Value:     append([]byte{}, valueResp.GetValue()...),
 		ExpiresAt: expiresAt,
 		Found:     true,
 	}, nil
